@@ -17,7 +17,7 @@ package main
 //   schedule must print the same line. Oracle: every reader hit equals the chain answer over the final tree; the
 //   sequential lookups that follow the conc op are judged strictly (visible after commit, nothing overwritten).
 //
-// c08race (free-running, race detector): `race <seed> <committers> <readers> <blocksPerRun> <keys> <millis> [latetxn]` is
+// c08race (free-running, race detector): `race <seed> <committers> <readers> <blocksPerRun> <keys> <millis>` is
 //   executed in a child process of this binary (built with -race): committers grow a block tree and commit
 //   concurrently, readers look up random (key, block) pairs at ancestors / in-flight blocks / descendants through
 //   StateCache, QueryBlockCache and BlockCache; every hit is compared with the chain answer over the blocks
@@ -597,7 +597,6 @@ func runC08Child(ops []string, needRace bool) CaseResult {
 		if f[0] != "race" || (len(f) != 7 && len(f) != 8) {
 			panic("malformed op: " + op)
 		}
-		lateTxn := len(f) == 8 && f[7] == "latetxn"
 		exe, err := os.Executable()
 		if err != nil {
 			panic(err)
@@ -626,14 +625,6 @@ func runC08Child(ops []string, needRace bool) CaseResult {
 			}
 			res.Fails = append(res.Fails, fmt.Sprintf("op %d (%s): the race detector reported a data race:\n%s", i, op, rep))
 			out = "race"
-			// narrow matcher of the open finding C08-stats-counter-race: the case lets a TransactionCache.Commit overlap
-			// the block's Commit, and the single report (halt_on_error) is commit()'s plain read of the block's hit/miss
-			// counters against the atomic add of TransactionCache.Commit -> addStats
-			if needRace && lateTxn && len(res.Fails) == 1 && c08IsStatsRace(se.String()) {
-				res.Finding = findingStatsRace
-			} else {
-				res.Finding = ""
-			}
 		} else if err != nil {
 			tail := se.String()
 			if len(tail) > 1200 {
@@ -649,37 +640,6 @@ func runC08Child(ops []string, needRace bool) CaseResult {
 	}
 	res.Nontrivial = len(res.Fails) == 0
 	return res
-}
-
-const findingStatsRace = "C08-stats-counter-race"
-
-func c08IsStatsRace(report string) bool {
-	// split the report into its two access stacks
-	var stacks []string
-	cur := -1
-	for _, l := range strings.Split(report, "\n") {
-		t := strings.TrimSpace(l)
-		if strings.HasPrefix(t, "Write at") || strings.HasPrefix(t, "Read at") || strings.HasPrefix(t, "Previous write at") || strings.HasPrefix(t, "Previous read at") {
-			stacks = append(stacks, "")
-			cur = len(stacks) - 1
-			continue
-		}
-		if strings.HasPrefix(t, "Goroutine ") {
-			cur = -1
-		}
-		if cur >= 0 {
-			stacks[cur] += t + "\n"
-		}
-	}
-	if len(stacks) != 2 {
-		return false
-	}
-	isCommitTop := func(s string) bool { return strings.HasPrefix(s, "github.com/0chain/common/core/statecache.(*StateCache).commit()") }
-	isStatsAdd := func(s string) bool {
-		return strings.HasPrefix(s, "sync/atomic.AddInt64()") &&
-			(strings.Contains(s, "statecache.(*TransactionCache).Commit()") || strings.Contains(s, "statecache.(*BlockCache).addStats()"))
-	}
-	return (isCommitTop(stacks[0]) && isStatsAdd(stacks[1])) || (isCommitTop(stacks[1]) && isStatsAdd(stacks[0]))
 }
 
 type c08rBlock struct {
@@ -720,12 +680,6 @@ func (s *c08rStore) chain(key, hash string) (string, bool) {
 func c08RaceChild(args []string) {
 	atoi := func(s string) int { n, _ := strconv.Atoi(s); return n }
 	seed, nC, nR, perRun, nKeys, millis := int64(atoi(args[0])), atoi(args[1]), atoi(args[2]), atoi(args[3]), atoi(args[4]), atoi(args[5])
-	// under the race detector a TransactionCache.Commit may overlap the block's Commit only in cases flagged `latetxn`
-	// (open finding C08-stats-counter-race would otherwise halt every child at its first report)
-	lateTxn := !raceEnabled || (len(args) > 6 && args[6] == "latetxn")
-	if perRun > 150 {
-		perRun = 150 // stay below the per-key capacity of 200 (entries per key <= blocks per run)
-	}
 	deadline := time.Now().Add(time.Duration(millis) * time.Millisecond)
 	var failMu sync.Mutex
 	fails := 0
@@ -828,7 +782,7 @@ func c08RaceChild(args []string) {
 					lateKey, lateVal := "w"+hash, fmt.Sprintf("%02x%04xee", c, n&0xffff)
 					if r.Intn(2) == 0 {
 						lateDone = make(chan struct{})
-						viaTxn := lateTxn && r.Intn(2) == 0
+						viaTxn := r.Intn(2) == 0
 						go func() {
 							defer close(lateDone)
 							if viaTxn {
@@ -992,9 +946,6 @@ func genC08Race(r *rand.Rand, tier string, idx int) []string {
 	nC := []int{1, 2, 4, 8}[idx%4]
 	nR := []int{8, 4, 8, 2}[idx%4]
 	op := fmt.Sprintf("race %d %d %d %d %d %d", r.Intn(1<<30), nC, nR, 60+r.Intn(90), 2+r.Intn(4), ms)
-	if idx%4 == 3 {
-		op += " latetxn" // a TransactionCache.Commit may overlap the block's Commit (open finding C08-stats-counter-race)
-	}
 	return []string{op}
 }
 
